@@ -179,16 +179,16 @@ let run_trie_ops (prefix : string) (v : variant) (built : trie) (ops : string li
         match load v (firstn_int k b) with Exc _ -> () | _ -> bad := string_of_int k :: !bad
       done;
       pr' "truncall %d %s" size (comma !bad)
-    | ["LIMIT"; k] ->
-      (match fs_save v !cur (File []) (Some (n_of_string k)) with
+    | ["LIMIT"; k] ->     (* Stream.save_dev: the visitor's write calls against a device of capacity k *)
+      (match save_dev v !cur (File []) (sched_cap (save_chunks v !cur) (n_of_string k)) true with
        | Ok (cnt, _) -> pr' "limit ret:%s size:%s load:ok" (string_of_n cnt) (string_of_n cnt)
        | r -> pr' "limit %s" (exc_or_fault r))
     | ["LIMITT"; k] ->     (* a transient refusal is still a refused write: save must throw *)
-      (match fs_save v !cur (File []) (Some (n_of_string k)) with
+      (match save_dev v !cur (File []) (sched_transient (save_chunks v !cur) (n_of_string k)) true with
        | Ok (cnt, _) -> pr' "limitt ret:%s size:%s load:ok" (string_of_n cnt) (string_of_n cnt)
        | r -> pr' "limitt %s" (exc_or_fault r))
     | ["XLRO"] -> pr' "xlro %s" (exc_or_fault (load v (save v !cur)))
-    | ["SAVEBAD"; w] -> pr' "savebad %s" (exc_or_fault (fs_save v !cur (if w = "full" then File [] else NoParent) (Some N0)))
+    | ["SAVEBAD"; w] -> pr' "savebad %s" (exc_or_fault (save_dev v !cur (if w = "full" then File [] else NoParent) (sched_cap (save_chunks v !cur) N0) true))
     | ["LIMITALL"] ->
       let size = List.length (bytes_of_built ()) in
       let bad = ref [] in
@@ -196,7 +196,7 @@ let run_trie_ops (prefix : string) (v : variant) (built : trie) (ops : string li
         match fs_save v !cur (File []) (Some (n_of_int k)) with Exc _ -> () | _ -> bad := string_of_int k :: !bad
       done;
       pr' "limitall %d %s" size (comma !bad)
-    | ["DEVFULL"] -> pr' "devfull %s" (exc_or_fault (fs_save v !cur (File []) (Some N0)))
+    | ["DEVFULL"] -> pr' "devfull %s" (exc_or_fault (save_dev v !cur (File []) (sched_cap (save_chunks v !cur) N0) true))
     | ["XL"; w] -> pr' "xl %s" (exc_or_fault (load (variant_of w) (save v !cur)))
     | ["XM"; w] -> pr' "xm %s" (exc_or_fault (mmap (variant_of w) (save v !cur)))
     | ["TID"] -> (match get_type_id (save v !cur) with
